@@ -105,11 +105,19 @@ def run(ctx):
                 add(V.validate_array, (v, "p", opt, nd), [mv, '(VStr "p")', enc.val(opt), enc.val(nd)], "validation_validate_array")
         for choices in (None, {"adam", "advi", "L-BFGS-B"}):
             ch = "VNone" if choices is None else "(VSet [%s])" % "; ".join(enc.val(c) for c in sorted(choices))
-            add(V.validate_string, (v, "p", choices), [mv, '(VStr "p")', ch], "validation_validate_string")
+            o = add(V.validate_string, (v, "p", choices), [mv, '(VStr "p")', ch], "validation_validate_string")
+            if o is not None and o[0] == "ok" and (not isinstance(v, str) or (choices and v not in choices)):
+                ctx.violation("C20|validate_string|accepted", "a value outside the allowed option strings is accepted",
+                              {"value": repr(v), "choices": sorted(choices) if choices else None})
         if not isinstance(v, (str, dict, set, slice)) and v is not None:
             add(V.validate_1d, (v,), [mv], "validation_validate_1d")
         if isinstance(v, np.ndarray) or hasattr(v, "devices"):
             add(ensure_2d, (v,), [mv], "util_ensure_2d")
+    for sv in ("Adam", "ADVI", "l-bfgs-b"):
+        o = enc.outcome(lambda: V.validate_string(sv, "p", {"adam", "advi", "L-BFGS-B"}))
+        if o != ("err", "ValueError"):
+            ctx.violation("C20|validate_string|case-variant", "an option string that is not one of the choices is accepted",
+                          {"value": sv, "observed": o[1] if o[0] == "err" else "accepted"})
     add(V.validate_string, ("adam", "p", {"adam", "advi"}), ['(VStr "adam")', '(VStr "p")', '(VSet [(VStr "adam"); (VStr "advi")])'], "validation_validate_string")
 
     # ---- B. nn_distances: every pattern of {valid, NaN, inf, -inf, 0, negative} up to length 3, random beyond
@@ -201,6 +209,9 @@ def run(ctx):
         ("jit-string", lambda: D(jit="yes"), {"TypeError"}),
         ("uncertainty-int", lambda: D(predictor_with_uncertainty=1), {"TypeError"}),
         ("optimizer-unknown", lambda: D(optimizer="sgd"), {"ValueError"}),
+        ("optimizer-case-variant", lambda: D(optimizer="Adam"), {"ValueError"}),
+        ("d_method-unknown", lambda: D(d_method="bogus"), {"ValueError"}),
+        ("d_method-case-variant", lambda: D(d_method="Fractal"), {"ValueError"}),
         ("optimizer-nonstring", lambda: D(optimizer=3), {"TypeError"}),
         ("n_landmarks-negative", lambda: D(n_landmarks=-1), {"ValueError"}),
         ("n_landmarks-float", lambda: D(n_landmarks=2.5), {"ValueError"}),
